@@ -17,7 +17,7 @@ from vlib.runner import VERIF
 
 ID = "C03"
 EXTRACTORS = []
-LEAN_MODULES = ["HalmosVerif.Props.C03"]
+LEAN_MODULES = ["HalmosVerif.Props.C03", "HalmosVerif.Props.C03Core"]
 RULE = (
     "test contracts from the grammar in tools/vlib/e2e.py: setUp() storing constants (sometimes CREATE-ing a helper) + 3 check_* "
     "functions with 1-3 static parameters (uint256/address/bool/int256) and optionally one dynamic parameter (bytes / uint256[]); "
@@ -26,6 +26,9 @@ RULE = (
     "x*c, x%c, keccak of words / of dynamic content, array length and elements, storage written by setUp, optional vm.assume; "
     "every second contract also has a counted loop with a symbolic trip count (while-shaped, and do-while-shaped whose back edge is "
     "the taken JUMPI side) failing only after exactly k iterations, run with a per-function --loop below / above k; "
+    "a family of tests with several assertion-bearing sibling paths of identical shape (per-length branches of a bytes / uint256[] "
+    "parameter, `if (a == k_i)` ladders) whose bodies assert L(x,y) == R(x,y) over symbolic products / quotients — valid on some "
+    "siblings, violable on exactly one, in every position — run with --cache-solver (--solver-threads 1 and default) and without; "
     "half reachable (built around a witness), half contradictory (negated atom, empty interval, length outside the bounds, hash "
     "injectivity, arithmetic impossibility, assumption excluding the guard). Each contract is run by the real run_contract "
     "(yices / z3, storage layout solidity / generic); every test is one case, distinct by (guard shape, failure kind, solver, layout)."
@@ -132,10 +135,11 @@ def judge(ctx, jobs, batch):
             r = by.get(chk.canon)
             verdict = VERDICT.get(r.exitcode, str(r.exitcode)) if r is not None else "MISSING"
             cls = _why_class(chk.why)
-            ctx.case(f"{cls}|{chk.kind}|{chk.style}|{solver}|{layout}|{','.join(p.typ for p in chk.params)}")
+            ctx.case(f"{cls}|{chk.kind}|{chk.style}|{solver}|{layout}|{job.get('opts')}|{','.join(p.typ for p in chk.params)}")
             ctx.count(f"verdict:{'reachable' if chk.reachable else 'unreachable'}:{verdict}")
             ctx.count(f"kind:{chk.kind}")
             ctx.count(f"solver:{solver}/{layout}")
+            ctx.count("option:" + job.get("opts", "default"))
             for t in set(chk.why.replace("|contra:", "+contra:").split("+")):
                 ctx.count(f"atom:{t}")
             if any(p.dynamic for p in chk.params):
@@ -165,7 +169,9 @@ def judge(ctx, jobs, batch):
             if verdict == "PASS" and failing:
                 tag, vals, o = failing[0]
                 key = f"pass-on-reachable-failure|{chk.kind}|{cls}"
-                what = (f"{gen.desc.name}.{chk.canon} reported PASS ({solver}, {layout}, flags: {flagged[:1]}) but the input "
+                if chk.why.startswith("siblings:"):
+                    key = f"pass-on-violable-test|{job.get('opts')}|{':'.join(chk.why.split(':')[:3])}"
+                what = (f"{gen.desc.name}.{chk.canon} reported PASS ({solver}, {layout}, options {job.get('opts')}, flags: {flagged[:1]}) but the input "
                         f"{[v if not isinstance(v, bytes) else v.hex() for v in vals]} ({tag}) ends in "
                         f"{'Panic' if o.panic_code() is not None else 'fail flag'} on the reference EVM; guard: "
                         f"{' && '.join(map(str, chk.atoms))}")
@@ -208,14 +214,21 @@ def make_jobs(ctx, specs, combos, sweep=40):
     """specs: list of (seed, name, kwargs) -> jobs with halmos runs done"""
     jobs = []
     for k, (seed, name, kw) in enumerate(specs):
-        for solver, cmd, layout in (combos(k)):
+        cs = combos(k)
+        if kw.get("solver"):
+            cs = [(s_, c_, cs[0][2]) for (s_, c_) in _solver_cmds() if s_ == kw["solver"]][:1] or cs
+        for solver, cmd, layout in cs:
             gen = e2e.gen_contract(random.Random(seed), name=name, pool=kw.get("pool", ()), ntests=kw.get("ntests", 3),
                                    bytes_sizes=kw.get("bytes_sizes"), array_sizes=kw.get("array_sizes"),
                                    panic_codes=kw.get("gen_panic_codes", (1,)), touch=kw.get("touch", False),
-                                   loops=kw.get("loops", False))
+                                   loops=kw.get("loops", False), siblings=kw.get("siblings"))
             cfg = {}
             if kw.get("panic_error_codes") is not None:
                 cfg["panic_error_codes"] = kw["panic_error_codes"]
+            if kw.get("cache_solver"):
+                cfg["cache_solver"] = True
+            if kw.get("solver_threads"):
+                cfg["solver_threads"] = kw["solver_threads"]
             if kw.get("bytes_sizes"):
                 cfg["default_bytes_lengths"] = ",".join(map(str, kw["bytes_sizes"]))
             if kw.get("array_sizes"):
@@ -223,6 +236,8 @@ def make_jobs(ctx, specs, combos, sweep=40):
             run = run_halmos(gen, cmd, layout, **cfg)
             jobs.append({"gen": gen, "run": run, "solver": solver, "layout": layout, "sweep": sweep,
                          "panic_codes": _codes(kw.get("panic_error_codes")),
+                         "opts": ("cache-solver" + (f"+threads{kw['solver_threads']}" if kw.get("solver_threads") else ""))
+                         if kw.get("cache_solver") else "default",
                          "spec": {"seed": seed, "name": name, "kw": {k2: v for k2, v in kw.items() if k2 != "pool"},
                                   "pool": list(kw.get("pool", ()))}})
     return jobs
@@ -263,9 +278,30 @@ def correspond(ctx):
         for p in sorted(cdir.glob("*.json")):
             d = json.loads(p.read_text())
             specs.append((d["seed"], d.get("name", "Corpus"), dict(d.get("kw", {}), pool=d.get("pool", pool))))
-    n = ctx.scale(44, 1200)
+    # directed (run first): sibling assertion paths of identical shape, a valid one explored before the violable one, with the
+    # unsat-core cache on (--cache-solver), deterministic order (--solver-threads 1) and default threads
+    specs.append((11, "Sib0", {"pool": pool, "ntests": 0, "cache_solver": True, "solver_threads": 1, "solver": "yices",
+                               "siblings": {"shape": "dynlen-bytes", "form": "mul", "violable_at": 1, "kind": "panic"}}))
+    specs.append((12, "Sib1", {"pool": pool, "ntests": 0, "cache_solver": True, "solver": "z3",
+                               "siblings": {"shape": "dynlen-3way", "form": "mul", "violable_at": 2, "kind": "panic"}}))
+    nsib = ctx.scale(6, 120)
+    for j in range(nsib):
+        kw = {"pool": pool, "ntests": 0, "siblings": {"violable_at": j}, "solver": "yices"}
+        if j % 3 == 2:
+            kw["siblings"]["shape"] = ctx.rng.choice(["dynlen-bytes", "dynlen-array", "dynlen-3way"])
+            kw["solver"] = "z3"
+        if j % 4 != 3:
+            kw["cache_solver"] = True
+            if j % 2 == 0:
+                kw["solver_threads"] = 1
+        specs.append((ctx.rng.randrange(1 << 48), f"Sib{j + 2}", kw))
+    n = ctx.scale(32, 1200)
     for i in range(n):
         kw = {"pool": pool}
+        if i % 5 == 2:
+            kw["cache_solver"] = True
+            if i % 10 == 2:
+                kw["solver_threads"] = 1
         if i % 5 == 3:
             kw["bytes_sizes"] = [0, 32, 65]
         if i % 7 == 4:
